@@ -3,8 +3,8 @@ CONSTANTS
   MaxSteps = 6
   MaxIno = 4
   FIX_REPOINT = TRUE
-  OPS = FALSE
-  MASK_ADD = TRUE
+  OPS = TRUE
+  MASK_ADD = FALSE
   ALIAS_OPS = FALSE
-INVARIANTS NoPanic TablesAgree MarksBacked ListOK
+INVARIANTS NoPanic TablesAgree MarksBacked ListOK MaskOK
 CHECK_DEADLOCK FALSE
